@@ -25,7 +25,8 @@ def base_spec(vals):
         {"name": "read", "request": rq(C("sid", 0x22), C("did", 0x0101, 16), V("x"),
                                        C("mark", vals["mark"], bytepos=4)),
          "pos": [rq(C("sid", 0x62), C("did", 0x0101, 16), V("y", 16, bytepos=vals["ypos"]),
-                    C("chk", vals["chk"], bytepos=6))],
+                    C("chk", vals["chk"], bytepos=6)),
+                 rq(C("sid", 0x62), C("did", 0x0102, 16), V("z"), C("chk2", vals["chk2"]))],
          "neg": [rq(C("sid", 0x7F), MR("rsid"), NRC("nrc", [0x11, 0x31]))]},
         {"name": "session", "request": rq(C("sid", 0x10), V("kind", default=vals["dflt"])),
          "pos": [rq(C("sid", 0x50), V("kind"), C("p2", vals["p2"], 16))]},
@@ -37,16 +38,17 @@ def base_spec(vals):
     ], "gnr": []}
 
 
-BASE = {"mark": 0x5A, "ypos": 3, "chk": 0x77, "dflt": 3, "p2": 0x0032}
+BASE = {"mark": 0x5A, "ypos": 3, "chk": 0x77, "dflt": 3, "p2": 0x0032, "chk2": 0x11}
 
 # numeric edits: name -> (service, where, parameter, property the tool must name)
 NUMERIC = {
     "request-const-behind-value": ("mark", "read", "request parameter 'mark'", "Value"),
     "response-const": ("chk", "read", "positive response parameter 'chk'", "Value"),
     "response-const-16": ("p2", "session", "positive response parameter 'p2'", "Value"),
+    "second-response-const": ("chk2", "read", "positive response parameter 'chk2'", "Value"),
     "response-byte-position": ("ypos", "read", "positive response parameter 'y'", "Byte position"),
 }
-RANGE = {"mark": (0, 255), "chk": (0, 255), "p2": (0, 65535), "ypos": (0, 5)}
+RANGE = {"mark": (0, 255), "chk": (0, 255), "p2": (0, 65535), "ypos": (0, 5), "chk2": (0, 255)}
 
 
 def _edit_structural(spec, kind):
